@@ -277,6 +277,7 @@ def run(res, tier, seed):
         # the configurator's Any / Xor (subclasses of the plog ones, with a `default` that must not change the truth function),
         # alone and under a plog connective
         cg = ConfigGen(random.Random(rng.getrandbits(64)))
+        cg.amount = {}                      # C04 is about boolean leaves
         if rng.random() < 0.4:
             # the default names one of the alternatives that is a sub-proposition (by its id)
             its = rng.sample(cg.items, min(len(cg.items), 4))
